@@ -127,6 +127,8 @@ pub fn render_elem(e: &Elem, l: &Layout, out: &mut String) {
     let mut tmp = String::new();
     render_elem_inner(e, l, &mut tmp);
     if l.foreign_attrs {
+        // further schema attributes of CODED-TYPE that the model does not use (the base data type decides)
+        tmp = tmp.replace(" CATEGORY=\"STANDARD-LENGTH-TYPE\"", " CATEGORY=\"STANDARD-LENGTH-TYPE\" ENCODING=\"UCS-2\" TERMINATION=\"ZERO\"");
         // decoy attributes in front of the looked-up ones
         tmp = tmp.replace(" ID=\"", " ext:OID=\"decoy-oid\" x:UUID=\"f81d4fae\" ID=\"").replace(" ID-REF=\"", " ext:KID-REF=\"decoy-ref\" ID-REF=\"").replace(" ho:BASE-DATA-TYPE=\"", " ext:ALT-BASE-DATA-TYPE=\"A_FLOAT64\" ho:BASE-DATA-TYPE=\"");
     }
